@@ -16,7 +16,7 @@ TIERS = {"quick": {"shards": 8, "cases": 6000}, "thorough": {"shards": 16, "case
 FLOOR_BASE = {"quick": 600, "thorough": 8000}    # case counts the floors below were calibrated for; the launcher scales them
 FUNCS = {("bool", False): "solve_pubo_bruteforce", ("bool", True): "solve_qubo_bruteforce",
          ("spin", False): "solve_puso_bruteforce", ("spin", True): "solve_quso_bruteforce"}
-PREDS = ["all", "parity", "none", "one", "card"]
+PREDS = ["all", "parity", "none", "one", "card", "reads-model"]
 
 
 def FLOORS(tier):
@@ -24,7 +24,8 @@ def FLOORS(tier):
     f = {"ties>=2-minimisers": 300 if q else 10000, "constant-model": 40, "empty-model": 10, "nothing-valid": 100,
          "method-calls": 400 if q else 10000, "valid-predicate-calls": 10000 if q else 5 * 10 ** 5, "with-offset": 300,
          "method:PCBO-with-constraints": 20, "stale-model": 50, "huge-offset": 100, "valid-argument-omitted": 100,
-         "free-function-on-constrained-model": 15, "typed-coefficients": 100, "second-call-after-result-edited": 300}
+         "free-function-on-constrained-model": 15, "typed-coefficients": 100, "second-call-after-result-edited": 300,
+         "dict-with-repeated-labels": 40, "dict-with-zero-coefficients": 20}
     for fn in FUNCS.values():
         f["fn:" + fn] = 200 if q else 8000
     for k in ("bool", "spin"):
@@ -68,6 +69,27 @@ def case(ctx, rng, idx):
         conv = rng.choice([Fraction, np.float64, lambda v: np.int64(round(v) or 1)])
         terms = {k: conv(v) for k, v in terms.items()}
         ctx.cat("typed-coefficients")
+    raw_dict = zero_dict = False
+    if tn == "dict" and terms and not deg2 and rng.random() < 0.15:
+        # raw keys that repeat a label (x*x = x, z*z = 1): only for the functions that take arbitrary degree
+        raw = {}
+        for k, v in terms.items():
+            k = list(k)
+            if k and rng.random() < 0.6:
+                k += [rng.choice(k)] * rng.choice([1, 2])
+                rng.shuffle(k)
+            raw[tuple(k)] = raw.get(tuple(k), 0) + v
+        terms = {k: v for k, v in raw.items() if v} or terms
+        raw_dict = True
+        ctx.cat("dict-with-repeated-labels")
+    elif tn == "dict" and terms and rng.random() < 0.08:
+        # a plain dict may carry explicit zero coefficients: its keys still name its variables
+        if rng.random() < 0.5:
+            terms = {k: (0 if k else v) for k, v in terms.items()}
+        else:
+            terms[(labs[0],)] = 0
+        zero_dict = True
+        ctx.cat("dict-with-zero-coefficients")
     ctx.cat("type:" + tn)
     stale = False
     if tn == "dict":
@@ -85,6 +107,9 @@ def case(ctx, rng, idx):
     if () in m:
         ctx.cat("with-offset")
     tv = sorted(p.vars(), key=repr)
+    if tn == "dict":
+        # for a plain dict the variables are the labels its keys name (the function may not depend on all of them)
+        tv = sorted({x for k in m for x in k}, key=repr)
     reported = set(tv) if tn == "dict" else set(m.variables)
     if mat and tn != "dict":
         reported = set(tv) if not stale else reported
@@ -92,6 +117,8 @@ def case(ctx, rng, idx):
     target = tuple(rng.choice(vals) for _ in tv)
     kcard = rng.randint(0, len(tv))
     malformed = []
+    levels = sorted({float(p.value(dict(zip(tv, a)))) for a in __import__("itertools").product(vals, repeat=len(tv))}) if len(tv) <= 7 else [0.0]
+    thr_level = levels[len(levels) // 2]
 
     def valid(x, count=True):
         if count:
@@ -106,6 +133,10 @@ def case(ctx, rng, idx):
             return sum(1 for v in tv if x[v] == vals[1]) % 2 == 0
         if pk == "card":
             return sum(1 for v in tv if x[v] == vals[1]) == kcard
+        if pk == "reads-model":
+            # "levels above a threshold": evaluates the very object that is being solved (its offset included)
+            live = (L.utils.puso_value if kind == "spin" else L.utils.pubo_value)(x, m) if count else float(p.value(x))
+            return live >= thr_level
         return tuple(x[v] for v in tv) == target
     alls = rng.random() < 0.5
     use_method = tn != "dict" and rng.random() < 0.3
@@ -144,7 +175,7 @@ def case(ctx, rng, idx):
         obj = "n/a"
     else:
         fname = FUNCS[(kind, deg2 and p.degree() <= 2)]
-        if p.degree() > 2:
+        if p.degree() > 2 or raw_dict:
             fname = FUNCS[(kind, False)]
         ctx.cat("fn:" + fname)
         w["function"] = fname
